@@ -657,7 +657,7 @@ static void sp_tail(struct vthread *t)
 		G.idle_jumps++;
 	}
 	if(P.clk_den > 0 && G.sps % (uint64_t)P.clk_den == 0)
-		G.clock_us++;
+		G.clock_us += (uint64_t)(P.clk_step > 0 ? P.clk_step : 1);
 	fault_points(t);
 	schedule(t);
 }
